@@ -422,8 +422,8 @@ class PluginEnv:
 
         def cob(b):
             # ('table_raise', procs, bad): raises for the procedure `bad`, which the model sees as "no description"
-            if b[0] in IMPORT_FAULT:
-                return 'absent'      # the import does not yield a module: no description
+            if b[0] in IMPORT_FAULT or b[0] == 'object':
+                return 'absent'      # the import does not yield a module: no description ('object': used outside the model only)
             return 'raises' if b[0] == 'raises' else 'table ' + tlist(b[1].items(), lambda kv: tt(kv[0]) + ' ' + tlist(kv[1], tt))
         def topt(v, f=tt):
             return '0' if v is None else '1 ' + f(v)
@@ -563,6 +563,9 @@ def fixture_source(pkg, beh):
         return 'import json\ndef parseSRCToJson(refcode, w2, w3, w4, w5, w6, w7, w8, w9):\n    %s\n' % body
     if beh[0] == 'raises':
         return 'def getMaintProcDesc(p):\n    raise Exception("callout plugin failure")\n'
+    if beh[0] == 'object':
+        # answers every procedure with one JSON OBJECT (real-code oracle only: the model's callout parsers answer with lists of lines)
+        return 'import json\nOBJ = %r\ndef getMaintProcDesc(p):\n    return json.dumps(OBJ)\n' % (beh[1],)
     if beh[0] == 'table_raise':
         return 'import json\nPROCS = %r\ndef getMaintProcDesc(p):\n    if p == %r:\n        raise KeyError(p)\n    return json.dumps(PROCS[p]) if p in PROCS else ""\n' % (beh[1], beh[2])
     return 'import json\nPROCS = %r\ndef getMaintProcDesc(p):\n    return json.dumps(PROCS[p]) if p in PROCS else ""\n' % (beh[1],)
